@@ -31,6 +31,9 @@ func features(schema any) map[string]bool {
 					f["nul-in-text"] = true
 				}
 			}
+			if pt, ok := x["pattern"].(string); ok && strings.Contains(pt, "`") {
+				f["pattern-backtick"] = true
+			}
 			if d, ok := x["description"].(string); ok && buildLine.MatchString(d) {
 				f["description-build-line"] = true
 			}
@@ -254,6 +257,7 @@ var c01Rules = []genRule{
 	{"ANYOF_BRANCH_TYPED_ADDL_MISSING_IMPORTS", regexp.MustCompile(`undefined: (reflect|strings|mapstructure)`), "anyof-branch-typed-addl"},
 	{"ANYOF_NON_OBJECT_BRANCH_UNDEFINED", regexp.MustCompile(`undefined: \w+_\d+`), "anyof-non-object-branch"},
 	{"DESCRIPTION_BUILD_CONSTRAINT", regexp.MustCompile(`^not gofmt-stable$`), "description-build-line"},
+	{"PATTERN_BACKTICK", regexp.MustCompile(`^(parse: |format warning: )`), "pattern-backtick"},
 	{"NUL_IN_TEXT", regexp.MustCompile(`illegal character NUL`), "nul-in-text"},
 	{"RECURSIVE_REQUIRED_NOT_POINTER", regexp.MustCompile(`invalid recursive type`), "required-self-ref"},
 	{"INT_MULTIPLEOF_LT1", regexp.MustCompile(`(invalid operation: )?division by zero`), "int-multipleOf<1"},
